@@ -44,16 +44,17 @@ type Result struct {
 }
 
 type Ctx struct {
-	ID      string
-	Tier    string
-	Seed    int64
-	Out     string
-	Rng     *rand.Rand
-	Res     *Result
-	Replay  string // path of a replay file to re-execute (optional)
-	seen    map[string]bool
-	Scratch bool // a throw-away context (used while minimising): nothing is written
-	shrunk  map[string]bool
+	ID       string
+	Tier     string
+	Seed     int64
+	Out      string
+	Rng      *rand.Rand
+	Res      *Result
+	Replay   string // path of a replay file to re-execute (optional)
+	seen     map[string]bool
+	Scratch  bool // a throw-away context (used while minimising): nothing is written
+	shrunk   map[string]bool
+	perClass map[string]int
 }
 
 func NewCtx(id, tier string, seed int64, out string) *Ctx {
@@ -94,7 +95,12 @@ func (c *Ctx) Sample(v interface{}) {
 }
 
 func (c *Ctx) Violate(class, what string, replay interface{}) {
-	if len(c.Res.Violations) < 50 {
+	// at most eight per class (a class recorded as a known finding must not crowd out a new one), 200 in all
+	if c.perClass == nil {
+		c.perClass = map[string]int{}
+	}
+	c.perClass[class]++
+	if c.perClass[class] <= 8 && len(c.Res.Violations) < 200 {
 		c.Res.Violations = append(c.Res.Violations, Violation{Class: class, What: what, Replay: replay})
 		c.Finish() // keep what was found even if the library kills the process later
 	}
